@@ -77,6 +77,7 @@ type GenVal struct {
 type GenAcc struct {
 	Key     int   `json:"key"`
 	Balance int64 `json:"balance"`
+	Abc     int64 `json:"abc,omitempty"` // balance in a second denomination "abc"
 }
 
 // Config is a genesis + node configuration. JSON-serialisable so replays are self-contained.
@@ -256,6 +257,7 @@ func GenesisState(cfg Config) map[string]json.RawMessage {
 	// auth: accounts + module accounts, supply = sum
 	var accs authTypes.Accounts
 	total := sdk.ZeroInt()
+	totalAbc := sdk.ZeroInt()
 	staked := sdk.ZeroInt()
 	for _, v := range cfg.Vals {
 		staked = staked.Add(sdk.NewInt(v.Stake))
@@ -269,6 +271,10 @@ func GenesisState(cfg Config) map[string]json.RawMessage {
 		acc := auth.NewBaseAccountWithAddress(Addr(a.Key))
 		if a.Balance > 0 {
 			acc.Coins = sdk.NewCoins(sdk.NewCoin(Denom, sdk.NewInt(a.Balance)))
+		}
+		if a.Abc > 0 {
+			acc.Coins = acc.Coins.Add(sdk.NewCoins(sdk.NewCoin("abc", sdk.NewInt(a.Abc))))
+			totalAbc = totalAbc.Add(sdk.NewInt(a.Abc))
 		}
 		acc.PubKey = Pub(a.Key) // auth.ValidateGenesis dereferences the key of every genesis account
 		ac := acc
@@ -291,6 +297,9 @@ func GenesisState(cfg Config) map[string]json.RawMessage {
 	ags := authTypes.GenesisState{Params: ap, Accounts: accs}
 	if total.IsPositive() {
 		ags.Supply = sdk.NewCoins(sdk.NewCoin(Denom, total))
+	}
+	if totalAbc.IsPositive() {
+		ags.Supply = ags.Supply.Add(sdk.NewCoins(sdk.NewCoin("abc", totalAbc)))
 	}
 
 	// pos
